@@ -263,10 +263,20 @@ def check_scaling(case, rec):
                                 'props': SC.graph_props(graph, True)}],
                    'active': [[p, 'f32' if case['f32'] else 'f64', len(inp)]], 'nchunks': 1, 'data': {p: [inp.tobytes()]}}
             data, _i, _l = encode_file({'segments': [seg]})
-            got = np.asarray(TdmsFile.read(io.BytesIO(data))['g']['c'][:], dtype=np.float64)
+            ch = TdmsFile.read(io.BytesIO(data))['g']['c']
+            first = np.array(ch.read_data(), dtype=np.float64)
+            got = np.asarray(ch[:], dtype=np.float64)
+            if first.tobytes() != got.tobytes() or np.asarray(ch.raw_data).tobytes() != inp.tobytes():
+                rec.violation('scaling:raw_modified', 'type %s direction %d: repeated scaled reads differ or raw data changed '
+                              '(first %r, then %r)' % (t, case['direction'], first[:3], got[:3]))
+                return
         else:
-            got = np.asarray(scaling.ThermocoupleScaling(NI_CODES[t], case['direction'], 0xFFFFFFFF).scale(inp.copy()),
-                             dtype=np.float64)
+            arg = inp.copy()
+            got = np.array(scaling.ThermocoupleScaling(NI_CODES[t], case['direction'], 0xFFFFFFFF).scale(arg), dtype=np.float64)
+            if arg.tobytes() != inp.tobytes():
+                rec.violation('scaling:raw_modified', 'type %s direction %d: scale() overwrote its input array' % (
+                    t, case['direction']))
+                return
     except Exception as e:      # noqa
         rec.violation('scaling:raised', describe_exc(e), key=exc_key(e))
         return
